@@ -33,6 +33,9 @@ pub struct Cfg {
     /// FTI and CENC signalled differently (CENC in-band iff the FTI is NOT in-band), and no Content-MD5
     #[serde(default)]
     pub split_sig: bool,
+    /// the objects inherit the session's OTI (no TransferConfig::oti); the session OTI is the scheme's
+    #[serde(default)]
+    pub inherit: bool,
 }
 
 #[derive(Serialize, Deserialize, Clone, Debug)]
@@ -60,7 +63,7 @@ pub fn prepare(c: &Cfg) -> Result<Prepared, String> {
     for j in 0..c.nobj {
         let l = if c.with_empty && j == c.nobj - 1 { 0 } else { len + 2 * j };
         let mut o = ObjSpec::simple(l, 20 + j as u8);
-        o.oti = Some(OtiSpec::new(c.scheme, e, b, parity, c.inband));
+        o.oti = if c.inherit { None } else { Some(OtiSpec::new(c.scheme, e, b, parity, c.inband)) };
         o.cenc = if l > 0 { c.cenc } else { 0 };
         o.text = o.cenc != 0;
         o.inband_cenc = c.inband != c.split_sig;
@@ -71,7 +74,7 @@ pub fn prepare(c: &Cfg) -> Result<Prepared, String> {
         o.count = c.count.max(1);
         objs.push(o);
     }
-    let mut s = SessSpec::basic(OtiSpec::new(Scheme::NoCode, c.fdt_e, 64, 0, true));
+    let mut s = SessSpec::basic(if c.inherit { OtiSpec::new(c.scheme, if c.scheme == Scheme::Raptor { 16 } else { e.max(8) * 4 }, if c.scheme == Scheme::Raptor { 64 } else { 8 }, parity, c.inband) } else { OtiSpec::new(Scheme::NoCode, c.fdt_e, 64, 0, true) });
     s.full_fdt = c.full_fdt;
     s.interleave = c.interleave.max(1);
     s.fdt_cenc = c.fdt_cenc;
@@ -168,12 +171,15 @@ pub fn configs(thorough: bool) -> Vec<Cfg> {
                                         if with_empty && nobj == 1 && cenc != 0 {
                                             continue;
                                         }
-                                        v.push(Cfg { scheme, nobj, inband, cenc, interval, full_fdt, fdt_e, with_empty, count, interleave, fdt_cenc: 0, split_sig: false });
+                                        v.push(Cfg { scheme, nobj, inband, cenc, interval, full_fdt, fdt_e, with_empty, count, interleave, fdt_cenc: 0, split_sig: false, inherit: false });
+                                        if cenc == 0 && count == 1 && interleave == 1 && !with_empty && fdt_e == 1424 {
+                                            v.push(Cfg { scheme, nobj, inband, cenc, interval, full_fdt, fdt_e, with_empty, count, interleave, fdt_cenc: 0, split_sig: false, inherit: true });
+                                        }
                                         if cenc != 0 && count == 1 && interleave == 1 {
-                                            v.push(Cfg { scheme, nobj, inband, cenc, interval, full_fdt, fdt_e, with_empty, count, interleave, fdt_cenc: 0, split_sig: true });
+                                            v.push(Cfg { scheme, nobj, inband, cenc, interval, full_fdt, fdt_e, with_empty, count, interleave, fdt_cenc: 0, split_sig: true, inherit: false });
                                         }
                                         if count == 1 && interleave == 1 && (thorough || fdt_e == 512) {
-                                            v.push(Cfg { scheme, nobj, inband, cenc, interval, full_fdt, fdt_e, with_empty, count, interleave, fdt_cenc: 1 + (nobj as u8 % 3), split_sig: false });
+                                            v.push(Cfg { scheme, nobj, inband, cenc, interval, full_fdt, fdt_e, with_empty, count, interleave, fdt_cenc: 1 + (nobj as u8 % 3), split_sig: false, inherit: false });
                                         }
                                     }
                                 }
